@@ -374,7 +374,9 @@ func buildC16(tier string) *core.Plan {
 		map[string]any{"small": 1, "list": []any{1, 2, 2}, "fl": 1.5},
 	}
 	spaces = append(spaces, core.Space{Name: "cli-same-document-across-formats", N: int64(len(numDocs) * 9), Chunk: 1,
-		Desc: func(i int64) any { return map[string]any{"doc": numDocs[i/9], "formats": []string{fm[i%3], fm[(i/3)%3]}} },
+		Desc: func(i int64) any {
+			return map[string]any{"doc": numDocs[i/9], "formats": []string{fm[i%3], fm[(i/3)%3]}}
+		},
 		Run: func(c *core.Ctx, i int64) {
 			d := numDocs[i/9]
 			fa, fb := fm[i%3], fm[(i/3)%3]
@@ -698,8 +700,8 @@ func buildC17(tier string) *core.Plan {
 			c.Outcome("cli-ok")
 		}}
 	return &core.Plan{
-		Spaces: []core.Space{single, two, three, mixedSpace, cli, lookalike},
-		Rule:   "every chain of 1-3 map-rooted layers over keys {a,b}, scalars {1, x, $required}, lists <=3 (single layers up to N nodes, pairs up to N-1, triples up to 3): $required at every subset of positions, upper layers overriding every subset; CLI runs with filename inheritance in format mixes; non-trivial = the merged document holds a marker",
+		Spaces:      []core.Space{single, two, three, mixedSpace, cli, lookalike},
+		Rule:        "every chain of 1-3 map-rooted layers over keys {a,b}, scalars {1, x, $required}, lists <=3 (single layers up to N nodes, pairs up to N-1, triples up to 3): $required at every subset of positions, upper layers overriding every subset; CLI runs with filename inheritance in format mixes; non-trivial = the merged document holds a marker",
 		Assumptions: []string{"marker positions are compared as multisets of paths with list indices erased; in-process runs use cmd/bklr/required.go copied from /repo's working tree at build time"},
 		Bounds:      map[string]any{"nodes": n},
 	}
